@@ -149,10 +149,11 @@ PROPS = {
             'col_to_byte_offset_in_line: Some(i) iff 1 <= col <= chars+1 and i is exactly the byte offset of that character (unit crop)',
             'line_starts: exactly 0 and the offset after every line feed, in order, all on char boundaries',
             'crop_line_by_cols: the result is exactly the requested column window of the line, with an ellipsis on each clipped side, and the returned LineCrop matches (start byte, prefix bytes)',
+            'crop_window_text (render-time crop with span rebasing): every slice on a char boundary, no overflow (for texts below 2^59 bytes: the output is shown to grow at most 8 bytes per input byte), the loop terminates, and the rebased marker span is ordered and lies inside the cropped text',
             'crop_source_window: every string slice is in range and on a char boundary, every index in bounds, no overflow; the vertical window holds the error line and at most two lines either side; on the error line nothing left of error column + radius is removed',
         ],
         not_covered=['UTF-8 validity of the sanitised bytes (the lossy fallback is therefore not proved dead)',
-                     'crop_window_text (render-time crop with span rebasing), Snippet::fmt_or_fallback, annotate-snippets rendering; reflected keys, formatter messages, miette; ring_reader trimming'],
+                     'that the rebased span still points at the reported column (only its bounds are proved), Snippet::fmt_or_fallback, annotate-snippets rendering; reflected keys, formatter messages, miette; ring_reader trimming'],
         assumptions=['String::into_bytes / from_utf8 shims (contracts/snippet.shim.rs)',
                      'str slicing / find / strip / char_indices / chars().count() shims (contracts/crop.shim.rs): slicing panics exactly when an end is not a char boundary or the range is inverted',
                      'a str has at most isize::MAX bytes (assumed allocation invariant); UTF-8 self-synchronisation (an ASCII byte of a valid encoding is a whole character) is PROVED from vstd\'s definition of encode_utf8 (lemma_ascii_byte_char)'],
